@@ -725,3 +725,61 @@ Proof.
         assert (Hin' : In (dann DFAN_LABEL d') (on_target AN_DATA_LABEL tag r0 (anns a))) by (apply (proj2 (Hont r0 _)); exists d'; auto).
         rewrite E in Hin'. apply in_map_iff. exists (dann DFAN_LABEL d'). split; [reflexivity | exact Hin'].
 Qed.
+
+(* ================= 8. the enumeration of file labels / descriptions ============================================ *)
+Lemma dd_after_spec : forall pre d post, NoDup (map d_ref (pre ++ d :: post)) -> dd_after (d_ref d) (pre ++ d :: post) = hd_error post.
+Proof.
+  induction pre as [|x pre IH]; simpl; intros d post ND.
+  - rewrite Z.eqb_refl. reflexivity.
+  - inversion ND as [|? ? Hn ND']; subst. destruct (d_ref x =? d_ref d) eqn:E; [|apply IH; assumption].
+    apply Z.eqb_eq in E. exfalso. apply Hn. rewrite E. rewrite map_app. apply in_or_app. right. left. reflexivity.
+Qed.
+
+Lemma enum_round : forall s kind (isfirst : bool) pre d post,
+  NoDup (map ddkey (l_dds s)) -> of_tag (fann_tag kind) (l_dds s) = pre ++ d :: post ->
+  ((isfirst = true /\ pre = []) \/ (isfirst = false /\ l_nextf s kind = d_ref d /\ l_nomore s kind = false)) ->
+  exists s1 s2, DFANIgetfannlen s kind isfirst = (s1, zlen (d_data d)) /\ DFANIgetfann s1 kind isfirst = (s2, Some (d_data d)) /\
+    l_dds s2 = l_dds s /\
+    match post with [] => l_nomore s2 kind = true | d' :: _ => l_nextf s2 kind = d_ref d' /\ l_nomore s2 kind = false end.
+Proof.
+  intros s kind isfirst pre d post ND Hels Hc.
+  assert (Hd : In d (of_tag (fann_tag kind) (l_dds s))) by (rewrite Hels; apply in_or_app; right; left; reflexivity).
+  apply of_tag_In in Hd. destruct Hd as [Hd Ht].
+  pose proof (hfind_In _ _ _ d ND Hd Ht eq_refl) as Hf.
+  assert (NDr : NoDup (map d_ref (pre ++ d :: post))) by (rewrite <- Hels; apply of_tag_refs_NoDup; assumption).
+  pose proof (dd_after_spec pre d post NDr) as Ha. rewrite <- Hels in Ha.
+  destruct Hc as [[-> ->]|[-> [Hn Hm]]].
+  - (* isfirst *)
+    simpl in Hels. rewrite Hels in Ha. unfold DFANIgetfannlen, DFANIgetfann, fann_lookup. cbn [negb andb l_dds set_enum set_lastref]. rewrite Hels. cbn [hd_error].
+    destruct post as [|d' post']; (eexists; eexists; split; [reflexivity|]; split;
+      [cbn [negb andb l_dds l_nomore l_nextf set_enum set_lastref]; rewrite ?Hels; cbn [hd_error]; rewrite Ha; cbn [hd_error]; reflexivity|];
+      split; [reflexivity|]; cbn [l_nomore l_nextf set_enum set_lastref]; rewrite ?upd_same; auto).
+  - unfold DFANIgetfannlen, DFANIgetfann, fann_lookup. cbn [negb andb]. rewrite Hm, Hn, Hf. cbn [andb].
+    destruct post as [|d' post']; (eexists; eexists; split; [reflexivity|]; split;
+      [cbn [l_nomore l_nextf l_dds set_enum set_lastref]; rewrite !upd_same, Hf; cbn [andb]; rewrite Ha; cbn [hd_error]; reflexivity|];
+      split; [reflexivity|]; cbn [l_nomore l_nextf set_enum set_lastref]; rewrite ?upd_same; auto).
+Qed.
+
+Lemma enum_from : forall post fuel s kind isfirst pre d,
+  NoDup (map ddkey (l_dds s)) -> of_tag (fann_tag kind) (l_dds s) = pre ++ d :: post ->
+  ((isfirst = true /\ pre = []) \/ (isfirst = false /\ l_nextf s kind = d_ref d /\ l_nomore s kind = false)) ->
+  (length post < fuel)%nat ->
+  exists s', enum_fann fuel s kind isfirst = (s', Some (map d_data (d :: post))) /\ l_dds s' = l_dds s /\ same_tables s s'.
+Proof.
+  induction post as [|d' post IH]; intros fuel s kind isfirst pre d ND Hels Hc Hf; (destruct fuel as [|f]; [simpl in Hf; lia|]).
+  - destruct (enum_round s kind isfirst pre d [] ND Hels Hc) as [s1 [s2 [R1 [R2 [Hd Hm]]]]].
+    destruct (getfannlen_frame _ _ _ _ _ R1) as [F1 _]. destruct (getfann_frame _ _ _ _ _ R2) as [F2 _].
+    cbn [enum_fann]. rewrite R1. replace (zlen (d_data d) <? 0) with false by (symmetry; apply Z.ltb_ge; unfold zlen; lia). rewrite R2.
+    assert (E : enum_fann f s2 kind false = (s2, Some [])).
+    { destruct f; [reflexivity|]. cbn [enum_fann]. unfold DFANIgetfannlen. cbn [negb andb]. rewrite Hm. reflexivity. }
+    rewrite E. exists s2. split; [reflexivity|]. split; [assumption | eapply same_tables_trans; eassumption].
+  - destruct (enum_round s kind isfirst pre d (d' :: post) ND Hels Hc) as [s1 [s2 [R1 [R2 [Hd [Hn Hm]]]]]].
+    destruct (getfannlen_frame _ _ _ _ _ R1) as [F1 _]. destruct (getfann_frame _ _ _ _ _ R2) as [F2 _].
+    cbn [enum_fann]. rewrite R1. replace (zlen (d_data d) <? 0) with false by (symmetry; apply Z.ltb_ge; unfold zlen; lia). rewrite R2.
+    destruct (IH f s2 kind false (pre ++ [d]) d') as [s' [E [Hd' F3]]].
+    + rewrite Hd. assumption.
+    + rewrite Hd, Hels, <- app_assoc. reflexivity.
+    + right. auto.
+    + simpl in Hf. lia.
+    + rewrite E. exists s'. split; [reflexivity|]. split; [congruence|]. eapply same_tables_trans; [eapply same_tables_trans|]; eassumption.
+Qed.
